@@ -2,11 +2,16 @@ SPECIFICATION Spec
 CONSTANTS
   KindSet = {"single", "standalone", "sentinel", "dedicated", "cluster", "clusterbatch"}
   ClassSet = {"readonly", "retryable", "plain"}
+  ShapeSet = {"one"}
+  PathSet = {"sync", "pipelined"}
   MaxSends = 3
   MaxMoved = 0
   CtxKinds = {"none", "cancel", "deadline"}
   AllowExpiredSent = TRUE
   AllowBatchSibling = FALSE
+  AllowTxResend = FALSE
+  BugBatchAnyRetryable = FALSE
+  BugSyncExpired = FALSE
   BugIgnoreRetryable = FALSE
   BugRetryErrReply = FALSE
   BugRetryAfterCtx = FALSE
